@@ -119,7 +119,7 @@ impl Desc {
 			),
 			Delay { time, fb, mix, fx } => format!(
 				"(DDelay {} {} {} [{}])",
-				f64_bits_z(time.as_secs_f64()),
+				time.as_nanos(),
 				f32_bits_z(*fb),
 				f32_bits_z(*mix),
 				fx.iter().map(|d| d.term()).collect::<Vec<_>>().join("; ")
